@@ -180,9 +180,10 @@ Record step := Step {
   s_anomalies : list Z
 }.
 
-(** width, raw leaves, chunks of the base file, the base DAG as built by
-    trickle.Layout, then a history of appends (each applied to the previous result) *)
-Inductive case := CAppend (w : nat) (raw : bool) (base : list chunk) (t0 : tree chunk) (steps : list step).
+(** width, raw leaves, chunks of the base file (built by trickle.Layout; that its DAG
+    is [tri_tree base] is C07's correspondence), then a history of appends, each
+    applied to the previous result *)
+Inductive case := CAppend (w : nat) (raw : bool) (base : list chunk) (steps : list step).
 
 Definition step_spec (w : nat) (raw : bool) (prev : tree chunk) (cs : list chunk) (t : tree chunk)
   (size read_len : Z) (read_eq : bool) : bool * bool :=
@@ -210,6 +211,9 @@ Definition check_step (w : nat) (raw : bool) (prev : tree chunk) (s : step) : ve
     step_spec w raw prev (s_chunks s) (s_tree s) (s_size s) (s_read_len s) (s_read_eq s) in
   let on := step_model aflags_on w raw prev s in
   let off := step_model aflags_off w raw prev s in
+  (* the shape clause presupposes a trickle-shaped file; after an append that broke the
+     shape (reported at that step) only content and sizes are demanded of later appends *)
+  let shape_ok := shape_ok || negb (tri_shape clen w raw prev) in
   if content_ok && shape_ok then (if on || off then VOk else VModelMismatch)
   else if content_ok && on && off_meets w raw prev (s_chunks s) then VKnown 1
   else VSpecFail.
@@ -231,10 +235,9 @@ Fixpoint check_steps (w : nat) (raw : bool) (prev : tree chunk) (ss : list step)
 
 Definition check_case (c : case) : verdict :=
   match c with
-  | CAppend w raw base t0 steps =>
-      (* the base is what the C07 model says trickle.Layout builds *)
+  | CAppend w raw base steps =>
       match tri_tree clen cnil w raw base with
-      | Some t => if tree_eqb chunk_eqb t t0 then check_steps w raw t0 steps else VModelMismatch
+      | Some t => check_steps w raw t steps
       | None => VModelMismatch
       end
   end.
